@@ -102,6 +102,28 @@ except ValueError:
     pass
 
 
+class Holder:
+    """A hosted class that creates a managed value of its own while it is being constructed (inside the server)."""
+
+    def __init__(self, n=2):
+        self.own = managed_list(list(range(n)))
+
+    def own_proxy(self):
+        return self.own
+
+    def own_len(self):
+        return len(self.own)
+
+    def own_snapshot(self):
+        return self.own[:]
+
+
+try:
+    ServerProcess.register('Holder', Holder)
+except Exception:  # already registered (re-import)
+    pass
+
+
 class GCounter:
     def __init__(self):
         self.n = 0
